@@ -189,62 +189,6 @@ fn date_trunc_iso_year() {
     assert!(r.unwrap().days() as i64 == k_iso_start(iy));
 }
 
-// ---- the same obligation over an ABSTRACT calendar (quick tier): the only facts about the calendar the ISO-year code needs are
-// the day numbers J(y-1), J(y), J(y+1) of three consecutive 1 Januaries.  They are symbolic here, constrained by what Verus proves
-// about the real calendar: consecutive years are 365 or 366 days apart (lemma_year_step), J(1) = -719162 and J(10000) = 2932897
-// (lemma_range_ends), an ISO year >= 1 starts inside the range (lemma_iso_start_mono + lemma_iso_ends), and a date of year y lies
-// in [J(y), J(y+1)) (lemma_within_year).  Every real calendar satisfies the constraints, so the proof covers it.
-pub static mut K_ABS_Y: i32 = 0;
-pub static mut K_ABS_J: [i64; 3] = [0; 3];
-
-pub fn date2julian_abstract(year: i32, month: u32, day: u32) -> i32 {
-    let y0 = unsafe { K_ABS_Y };
-    let j = unsafe { K_ABS_J };
-    assert!(month == 1 && (day == 1 || day == 4));
-    assert!(year >= y0 - 1 && year <= y0 + 1);
-    (j[(year - (y0 - 1)) as usize] + day as i64 - 1 + 2440588) as i32
-}
-
-pub fn extract_abstract(_d: Date) -> (i32, u32, u32) {
-    let m: u32 = kani::any();
-    let dd: u32 = kani::any();
-    kani::assume(m >= 1 && m <= 12 && dd >= 1 && dd <= 31);
-    (unsafe { K_ABS_Y }, m, dd)
-}
-
-fn wd32(n: i32) -> i32 {
-    ((n + 4) % 7 + 7) % 7 + 1
-}
-
-fn abs_iso_start(j: i32) -> i32 {
-    j + 3 - (wd32(j + 3) + 5) % 7
-}
-
-#[kani::proof]
-#[kani::stub(crate::date::Date::extract, extract_abstract)]
-#[kani::stub(crate::common::date2julian, date2julian_abstract)]
-fn date_trunc_iso_year_abstract() {
-    let y: i32 = kani::any();
-    kani::assume(y >= 1 && y <= 9999);
-    let j1: i32 = kani::any();
-    let leap0: bool = kani::any();
-    let leap1: bool = kani::any();
-    kani::assume(j1 as i64 >= K_DATE_MIN && j1 as i64 <= K_DATE_MAX);
-    let j0 = j1 - if leap0 { 366 } else { 365 };
-    let j2 = j1 + if leap1 { 366 } else { 365 };
-    kani::assume(y != 1 || j1 as i64 == K_DATE_MIN);
-    kani::assume(y != 9999 || j2 as i64 == K_DATE_MAX + 1);
-    kani::assume(y == 1 || abs_iso_start(j0) as i64 >= K_DATE_MIN);
-    unsafe { K_ABS_Y = y; K_ABS_J = [j0 as i64, j1 as i64, j2 as i64]; }
-    let n: i32 = kani::any();
-    kani::assume(n >= j1 && n < j2 && n as i64 <= K_DATE_MAX);
-    let d = Date::try_from_days(n).unwrap();
-    let want = if n < abs_iso_start(j1) { abs_iso_start(j0) } else if n >= abs_iso_start(j2) { abs_iso_start(j2) } else { abs_iso_start(j1) };
-    let r = d.trunc_iso_year();
-    assert!(r.is_ok());
-    assert!(r.unwrap().days() == want);
-}
-
 /// the same obligation without the contract stub (thorough tier; CBMC inverts the calendar itself)
 #[kani::proof]
 fn date_trunc_iso_year_direct() {
@@ -551,6 +495,33 @@ fn dt_div_f64_exact_quotients_bounded() {
     assert!(r.is_ok() && r.unwrap().usecs() == q as i64);
 }
 
+/// exact quotients with a few constant divisors: (q * k) / k == q
+#[kani::proof]
+fn dt_div_f64_const_divisors_bounded() {
+    let q: i32 = kani::any();
+    kani::assume(q > -100_000 && q < 100_000);
+    let v3 = IntervalDT::try_from_usecs(q as i64 * 3).unwrap();
+    assert!(v3.div_f64(3.0).unwrap().usecs() == q as i64);
+    let v49 = IntervalDT::try_from_usecs(q as i64 * 49).unwrap();
+    assert!(v49.div_f64(49.0).unwrap().usecs() == q as i64);
+    let v10 = IntervalDT::try_from_usecs(q as i64 * 10).unwrap();
+    assert!(v10.div_f64(10.0).unwrap().usecs() == q as i64);
+    assert!(v10.div_f64(-10.0).unwrap().usecs() == -(q as i64));
+}
+
+/// exact products with a few constant integer factors, and sign symmetry
+#[kani::proof]
+fn dt_mul_f64_const_factors_bounded() {
+    let x: i64 = kani::any();
+    kani::assume(x > -(1i64 << 44) && x < (1i64 << 44));
+    let v = IntervalDT::try_from_usecs(x).unwrap();
+    assert!(v.mul_f64(3.0).unwrap().usecs() == x * 3);
+    assert!(v.mul_f64(-7.0).unwrap().usecs() == -(x * 7));
+    assert!(v.negate().mul_f64(7.0).unwrap().usecs() == -(x * 7));
+    assert!(v.mul_f64(0.5).unwrap().usecs() == x / 2);
+    assert!(v.mul_f64(1000.0).unwrap().usecs() == x * 1000);
+}
+
 // ------------------------------------------------------------------ C15: serde, compact binary form
 mod kserde {
     use super::*;
@@ -854,9 +825,7 @@ pub fn od_new_probe(date: Date, time: Time) -> crate::OracleDate {
 #[kani::proof]
 #[kani::stub(chrono::Local::now, stub_now)]
 #[kani::stub(crate::timestamp::Timestamp::new, ts_new_probe)]
-#[kani::stub(crate::oracle::Date::new, od_new_probe)]
 fn clock_now_timestamp() {
-    use crate::OracleDate;
     let c = set_any_clock(false);
     let day = k_dn(c[0] as i64, c[1] as i64, c[2] as i64);
     let tod = k_hms_us(c[3] as i64, c[4] as i64, c[5] as i64, c[6] as i64);
@@ -864,6 +833,16 @@ fn clock_now_timestamp() {
     let ts = Timestamp::now();
     assert!(ts.is_ok());
     assert!(unsafe { K_NEW_CALLS } == 1 && unsafe { K_NEW_DAY } == day && unsafe { K_NEW_TOD } == tod);
+}
+
+#[kani::proof]
+#[kani::stub(chrono::Local::now, stub_now)]
+#[kani::stub(crate::oracle::Date::new, od_new_probe)]
+fn clock_now_oracle_date() {
+    use crate::OracleDate;
+    let c = set_any_clock(false);
+    let day = k_dn(c[0] as i64, c[1] as i64, c[2] as i64);
+    let tod = k_hms_us(c[3] as i64, c[4] as i64, c[5] as i64, c[6] as i64);
     unsafe { K_NEW_CALLS = 0; }
     let od = OracleDate::now();
     assert!(od.is_ok());
@@ -875,9 +854,7 @@ fn clock_now_timestamp() {
 #[kani::proof]
 #[kani::stub(chrono::Local::now, stub_now)]
 #[kani::stub(crate::timestamp::Timestamp::new, ts_new_probe)]
-#[kani::stub(crate::oracle::Date::new, od_new_probe)]
 fn clock_time_to_timestamp() {
-    use crate::OracleDate;
     let c = set_any_clock(false);
     let day = k_dn(c[0] as i64, c[1] as i64, c[2] as i64);
     let t = any_time();
@@ -885,6 +862,16 @@ fn clock_time_to_timestamp() {
     let a = Timestamp::try_from(t);
     assert!(a.is_ok());
     assert!(unsafe { K_NEW_CALLS } == 1 && unsafe { K_NEW_DAY } == day && unsafe { K_NEW_TOD } == t.usecs());
+}
+
+#[kani::proof]
+#[kani::stub(chrono::Local::now, stub_now)]
+#[kani::stub(crate::oracle::Date::new, od_new_probe)]
+fn clock_time_to_oracle_date() {
+    use crate::OracleDate;
+    let c = set_any_clock(false);
+    let day = k_dn(c[0] as i64, c[1] as i64, c[2] as i64);
+    let t = any_time();
     unsafe { K_NEW_CALLS = 0; }
     let b = OracleDate::try_from(t);
     assert!(b.is_ok());
